@@ -131,6 +131,152 @@ theorem autohint_align_edge_points_terminates (o : Nat → Nat → Bool) (h : Na
   obtain ⟨s', h1, _, h3, h4⟩ := iter_advances_pre s.n 1 _ (edge_pts_step_advances o h lnk s.n hring) s rfl hl hf
   exact ⟨s', h1, h3, by omega⟩
 
+/-! ### compute_directions: backward walk to the first non-near point -/
+
+/-- the `while prev_ix != first_ix` body continues only from `prev_ix ≠ first_ix`, with `prev_ix` moved back -/
+theorem dirs_back_step_retreats (o : Nat → Nat → Bool) (h : Nat → Nat → Nat) (N : Nat) :
+    RetreatsPre N 1 (dirsBackStep o h) := by
+  intro s hN hl hf
+  have hp := cprev_spec s.n s.last
+  unfold dirsBackStep
+  simp only []
+  repeat' split
+  all_goals first
+    | scan_path
+    | fail "compute_directions, backward while: a path continues without `prev_ix != first_ix` tested and `prev_ix = contour.prev(prev_ix)`"
+
+/-- **compute_directions, backward walk terminates** within `n` body executions -/
+theorem autohint_compute_directions_backward_walk_terminates (o : Nat → Nat → Bool) (h : Nat → Nat → Nat) (s : St)
+    (hl : s.last < s.n) (hf : s.segFirst < s.n) :
+    ∃ s', iter (dirsBackStep o h) (s.n + 1) s = some s' ∧ s.tick < s'.tick ∧ s'.tick ≤ s.tick + s.n := by
+  obtain ⟨s', h1, _, h3, h4⟩ := iter_retreats_pre s.n 1 _ (dirs_back_step_retreats o h s.n) s rfl hl hf
+  exact ⟨s', h1, h3, by omega⟩
+
+/-! ### build_segments: main loop -/
+
+/-- one body execution of the main loop either leaves (second visit of `last_ix`, or the `> 1000 segments` return) or
+continues, indices in range, with a smaller measure: every path to the end of the body advances `point_ix`, and
+`passed` is set at the first visit of `last_ix` -/
+theorem seg_main_step_decreases (o : Nat → Nat → Bool) (h : Nat → Nat → Nat) (s : StF)
+    (hl : s.last < s.n) (hf : s.segFirst < s.n) :
+    (∃ s', segMainStep o h s = .brk s' ∧ True ∧ True) ∨ (∃ s', segMainStep o h s = .exit s' ∧ True ∧ False) ∨
+    (∃ s', segMainStep o h s = .cont s' ∧ (s'.last < s'.n ∧ s'.segFirst < s'.n) ∧ True ∧
+      segMainMeasure s' < segMainMeasure s) := by
+  have hc := cnext_spec s.n s.last
+  unfold segMainStep segMainMeasure dist0
+  simp only []
+  repeat' split
+  all_goals first
+    | (left; exact ⟨_, rfl, trivial, trivial⟩)
+    | (right; right; refine ⟨_, rfl, ?_⟩; simp_all; omega)
+    | (right; right; refine ⟨_, rfl, ?_⟩; simp_all <;> (repeat' split) <;> omega)
+    | fail "build_segments main loop: a path continues without `point_ix = contour.next(point_ix)` / without the `point_ix == last_ix` – `passed` test"
+
+/-- **build_segments main loop terminates**: for every oracle, from any state with both indices inside the contour,
+within `measure + 1 ≤ 2 n` body executions … -/
+theorem autohint_build_segments_main_loop_terminates (o : Nat → Nat → Bool) (h : Nat → Nat → Nat) (s : StF)
+    (hl : s.last < s.n) (hf : s.segFirst < s.n) :
+    ∃ s', iterG (segMainStep o h) (segMainMeasure s + 1) s = some (false, s') := by
+  obtain ⟨e, s', h1, _, h3⟩ := iterG_measure (segMainStep o h) (fun s => s.last < s.n ∧ s.segFirst < s.n)
+    segMainMeasure (fun _ _ => True) (fun _ => True) (fun _ => False) (fun _ _ _ _ _ => trivial)
+    (fun s hI => seg_main_step_decreases o h s hI.1 hI.2) (segMainMeasure s + 1) s ⟨hl, hf⟩ (by omega)
+  cases e
+  · exact ⟨s', h1⟩
+  · simp at h3
+
+/-- … and from the state in which the Rust enters it (`last_ix = point_ix`, `passed = false`) within `n + 1` -/
+theorem autohint_build_segments_main_loop_entry_bound (o : Nat → Nat → Bool) (h : Nat → Nat → Nat) (s : StF)
+    (hl : s.last < s.n) (he : s.segFirst = s.last) (hp : s.flag = false) :
+    ∃ s', iterG (segMainStep o h) (s.n + 1) s = some (false, s') := by
+  have hm : segMainMeasure s = s.n := by
+    unfold segMainMeasure dist0; simp [hp, he]
+  have := autohint_build_segments_main_loop_terminates o h s hl (by omega)
+  rwa [hm] at this
+
+/-! ### align_weak_points -/
+
+/-- nested `while point_ix < last_ix && …touched…`: exits within `last_ix - point_ix + 1` executions; `point_ix` only grows -/
+theorem weak_skip_loop_terminates (o : Nat → Nat → Bool) (h : Nat → Nat → Nat) (s : St) :
+    ∃ e s', iterG (weakSkipStep o h) (s.segFirst + 2) s = some (e, s') ∧ Grows s s' := by
+  obtain ⟨e, s', h1, h2, _⟩ := iterG_measure (weakSkipStep o h) (fun _ => True) (fun s => s.segFirst - s.last) Grows
+    (fun _ => True) (fun _ => True) grows_trans (by
+      intro s _
+      unfold weakSkipStep Grows
+      simp only []
+      repeat' split
+      all_goals first
+        | (left; exact ⟨_, rfl, by dsimp only; omega, trivial⟩)
+        | (right; left; exact ⟨_, rfl, by dsimp only; omega, trivial⟩)
+        | (right; right; refine ⟨_, rfl, trivial, ?_⟩; dsimp only; omega)
+        | fail "align_weak_points, while: a path continues without `point_ix < last_ix` tested and `point_ix += 1`")
+    (s.segFirst + 2) s trivial (by first | omega | (dsimp only; omega))
+  exact ⟨e, s', h1, h2⟩
+
+/-- nested `loop` "find the next touched point": exits within `last_ix + 2 - point_ix` executions, by `break` only with
+`point_ix ≤ last_ix`, otherwise by `break 'outer` -/
+theorem weak_find_loop_terminates (o : Nat → Nat → Bool) (h : Nat → Nat → Nat) (s : St) :
+    ∃ e s', iterG (weakFindStep o h) (s.segFirst + 2) s = some (e, s') ∧ Grows s s' ∧
+      (e = false → s'.last ≤ s.segFirst) := by
+  obtain ⟨e, s', h1, h2, h3⟩ := iterG_measure (weakFindStep o h) (fun _ => True) (fun s => s.segFirst + 1 - s.last) Grows
+    (fun s' => s'.last ≤ s'.segFirst) (fun _ => True) grows_trans (by
+      intro s _
+      unfold weakFindStep Grows
+      simp only []
+      repeat' split
+      all_goals first
+        | (left; exact ⟨_, rfl, by dsimp only; omega, by dsimp only; omega⟩)
+        | (right; left; exact ⟨_, rfl, by dsimp only; omega, trivial⟩)
+        | (right; right; refine ⟨_, rfl, trivial, ?_⟩; dsimp only; omega)
+        | fail "align_weak_points, inner loop: a path continues without `point_ix > last_ix` tested and `point_ix += 1`")
+    (s.segFirst + 2) s trivial (by first | omega | (dsimp only; omega))
+  refine ⟨e, s', h1, h2, ?_⟩
+  intro he; subst he
+  have := h2.1
+  simp at h3; omega
+
+private theorem weak_skip_some (o : Nat → Nat → Bool) (h : Nat → Nat → Nat) (st : St) (fuel : Nat)
+    (x : Option (Bool × St)) (hi : iterG (weakSkipStep o h) fuel st = x) (hfu : fuel = st.segFirst + 2) :
+    ∃ e r, x = some (e, r) ∧ Grows st r := by
+  subst hfu
+  obtain ⟨e, r, h1, h2⟩ := weak_skip_loop_terminates o h st
+  exact ⟨e, r, by rw [← hi, h1], h2⟩
+
+private theorem weak_find_some (o : Nat → Nat → Bool) (h : Nat → Nat → Nat) (st : St) (fuel : Nat)
+    (x : Option (Bool × St)) (hi : iterG (weakFindStep o h) fuel st = x) (hfu : fuel = st.segFirst + 2) :
+    ∃ e r, x = some (e, r) ∧ Grows st r ∧ (e = false → r.last ≤ st.segFirst) := by
+  subst hfu
+  obtain ⟨e, r, h1, h2⟩ := weak_find_loop_terminates o h st
+  exact ⟨e, r, by rw [← hi, h1], h2⟩
+
+/-- **align_weak_points terminates**: for every oracle and every `point_ix`, `last_ix`, the `'outer` loop exits within
+`last_ix + 2` executions of its body (each of which increments `point_ix`), and neither nested loop runs out of its
+fuel `last_ix + 2`; `point_ix` never decreases. -/
+theorem autohint_align_weak_points_terminates (o : Nat → Nat → Bool) (h : Nat → Nat → Nat) (s : St) :
+    ∃ s', iterG (weakStep o h) (s.segFirst + 2) s = some (false, s') ∧ s'.segFirst = s.segFirst ∧ s.last ≤ s'.last := by
+  obtain ⟨e, s', h1, h2, h3⟩ := iterG_measure (weakStep o h) (fun _ => True) (fun s => s.segFirst + 1 - s.last)
+    (fun a b => b.segFirst = a.segFirst ∧ a.last ≤ b.last)
+    (fun _ => True) (fun _ => False) (by intro a b c h1 h2; omega) (by
+      intro s _
+      unfold weakStep
+      simp only []
+      repeat' split
+      all_goals
+        (obtain ⟨e1, q1, hx1, h1g⟩ := weak_skip_some o h _ _ _ ‹iterG (weakSkipStep o h) _ _ = _› rfl
+         cases hx1)
+      all_goals try
+        (obtain ⟨e2, q2, hx2, h2g, h2b⟩ := weak_find_some o h _ _ _ ‹iterG (weakFindStep o h) _ _ = _› rfl
+         cases hx2)
+      all_goals unfold Grows at *
+      all_goals dsimp only at *
+      all_goals first
+        | (left; exact ⟨_, rfl, by dsimp only; omega, trivial⟩)
+        | (right; right; refine ⟨_, rfl, trivial, ?_⟩; dsimp only; simp at h2b; omega)
+        | fail "align_weak_points, 'outer loop: a path continues without `point_ix` having grown and `point_ix <= last_ix`")
+    (s.segFirst + 2) s trivial (by first | omega | (dsimp only; omega))
+  cases e
+  · exact ⟨s', h1, h2⟩
+  · simp at h3
+
 /-! ### Non-vacuity -/
 
 /-- compute_directions, every point "near": once around a 4-point contour from `first_ix = 2` -/
@@ -148,6 +294,17 @@ example : iter (segStartStep (fun _ t => t == 3) (fun _ _ => 0)) 5 ⟨1, 1, 4, 0
 example : iterCount (edgePtsStep (fun _ _ => false) (fun _ _ => 0) (cnext 4)) 5 ⟨3, 1, 4, 0⟩ = some (⟨1, 1, 4, 3⟩, 3) := by decide
 /-- the ring hypothesis matters: links that cycle 0 ↔ 1 never reach point 3 -/
 example : iter (edgePtsStep (fun _ _ => false) (fun _ _ => 0) (fun i => 1 - i)) 5 ⟨0, 3, 4, 0⟩ = none := by decide
+/-- backward walk of compute_directions, no point far enough: 3 → 2 → 1 → 0, the 4th execution sees `prev_ix = first_ix` -/
+example : iterCount (dirsBackStep (fun _ _ => false) (fun _ _ => 0)) 5 ⟨3, 0, 4, 0⟩ = some (⟨0, 0, 4, 4⟩, 4) := by decide
+/-- main loop of build_segments from its entry state on a 4-point contour: exactly n + 1 = 5 executions, `passed` set -/
+example : iterGCount (segMainStep (fun _ _ => false) (fun _ _ => 0)) 5 ⟨⟨2, 2, 4, 0⟩, false⟩
+    = some (false, ⟨⟨2, 2, 4, 5⟩, true⟩, 5) := by decide
+example : iterG (segMainStep (fun _ _ => false) (fun _ _ => 0)) 4 ⟨⟨2, 2, 4, 0⟩, false⟩ = none := by decide
+/-- align_weak_points, no other point touched: skip nothing, step to 1, scan 1..5, leave by `break 'outer` at 6 > 5 -/
+example : iterGCount (weakStep (fun _ _ => false) (fun _ _ => 0)) 7 ⟨0, 5, 0, 0⟩ = some (false, ⟨6, 5, 0, 8⟩, 1) := by decide
+/-- every point touched (conditions true, `?` never returns: oracle id of the `?` found by search): the while skips to
+`last_ix`, then `point_ix = last_ix + 1` leaves -/
+example : ∃ k, k < 4 ∧ (iterG (weakStep (fun c _ => c != k) (fun _ _ => 0)) 7 ⟨0, 5, 0, 0⟩).map (fun r => r.2.last) = some 6 := by decide
 /-- the hypothesis is satisfiable -/
 example : ∀ i, i < 4 → cnext 4 i = cnext 4 i := fun _ _ => rfl
 
